@@ -116,7 +116,7 @@ struct Alphabets
       fullC.push_back(text(s));
     for (auto s : {" m ", "<x>"})
       redM.push_back(text(s));
-    for (auto s : {" m ", "", "<b>", "&amp;", "a-b", "]]>", "?>", " - ", "<!-", "->", ">", "</a>", "&undefined;"})
+    for (auto s : {" m ", "", "<b>", "&amp;", "a-b", "]]>", "?>", " - ", "<!", "->", ">", "</a>", "&undefined;"})
       fullM.push_back(text(s));
     redP = {pi("p", "", ""), pi("p", " ", "d")};
     fullP = {pi("p", "", ""), pi("p", " ", "d"), pi("p", " ", ""), pi("p", "  ", "d e "), pi("p", "\n", "d"), pi("ns-pi", " ", "x=\"1\""),
@@ -354,7 +354,7 @@ private:
       {"<?xml version='1.0'?>\n<!DOCTYPE a SYSTEM \"a.dtd\">\n", {}, 2, 3},
       {"<!DOCTYPE a PUBLIC \"-//X//Y\" 'http://x/y.dtd'>", {}, 1, 0},
       {"<!DOCTYPE a [<!ELEMENT a ANY> <!ENTITY e \"<b>'\">]>", {}, 1, 0},
-      {"<!DOCTYPE a[ <!-- [c] --> <?pi [ ?> ]\n>", {}, 1, 0},
+      {"<!DOCTYPE a[ <!ELEMENT a ANY>\n<!NOTATION n SYSTEM \"[x>]\"> ]\n>", {}, 1, 0},
       {"<!-- pre --><?pre-pi d?>", {preM, preP}, 0, 0},
       {"<?xml version=\"1.0\"?><!-- pre -->\n<!DOCTYPE a>\n<?pre-pi d?>\n", {preM, preP}, 2, 3},
       {"\n  ", {}, 0, 0},
